@@ -238,6 +238,23 @@ Proof.
   split; [intros x [<-|[<-|[<-|[]]]]; vm_compute; repeat constructor; discriminate|].
   repeat split; vm_compute; reflexivity.
 Qed.
+(* what the tie runs: the stream cut by a cyclic size schedule; the reader's position after an accepted
+   frame, after a refused header (behind its nine bytes) and after an early end *)
+Example C08_ex_reader_after :
+  cut_chunks 200 [8; 1; 1; 3] [8; 1; 1; 3] (firstn 15 ex_stream)
+    = [firstn 8 ex_stream; [nth 8 ex_stream 0]; [nth 9 ex_stream 0]; firstn 3 (skipn 10 ex_stream); skipn 13 (firstn 15 ex_stream)] /\
+  concat (cut_chunks 200 [8; 1; 1; 3] [8; 1; 1; 3] ex_stream) = ex_stream /\
+  no_eof (cut_chunks 200 [8; 1; 1; 3] [8; 1; 1; 3] ex_stream) /\
+  concat (reader_after [] (cut_chunks 200 [5] [5] ex_stream)) = [132; 0; 0; 1; 2; 0; 0; 0; 0] /\
+  read_frame_chunked [] (reader_after [] (cut_chunks 200 [5] [5] ex_stream))
+    = Ok ((mkHeader 132 0 1 2 0, []), []) /\
+  concat (reader_after [] (cut_chunks 200 [4] [4] ([4; 0; 0; 1; 2; 0; 0; 0; 0] ++ ex_stream))) = ex_stream /\
+  reader_after [] (cut_chunks 200 [7] [7] (firstn 50 ex_stream)) = [].
+Proof.
+  split; [vm_compute; reflexivity|]. split; [vm_compute; reflexivity|].
+  split; [vm_compute; repeat constructor; discriminate|].
+  repeat split; vm_compute; reflexivity.
+Qed.
 Example C08_ex_tablet :
   wf_tablet (-5) 1000 [([1; 2; 3; 4; 5; 6; 7; 8; 9; 10; 11; 12; 13; 14; 15; 16], 3)] /\
   tablet_payload (enc_tablet (-5) 1000 [([1; 2; 3; 4; 5; 6; 7; 8; 9; 10; 11; 12; 13; 14; 15; 16], 3)])
@@ -278,6 +295,13 @@ Example C08_ex_typed_cell :
   typed_cell (TNative Int) (Some [0; 0; 7]) = Err Cql.DE_ByteLengthMismatch /\
   typed_row [ex_ccol 97; ex_ccol 98] [Some [0; 0; 0; 1]; None] = Ok [Cql.CVal (Cql.CInt 1); Cql.CNull].
 Proof. repeat split; vm_compute; reflexivity. Qed.
+(* the hypotheses of C08_typed_cell_roundtrip are satisfiable: list<int> holding [9] *)
+Example C08_ex_typed_cell_hyp :
+  let t := TList false (TNative Int) in let v := Cql.CList [Cql.CInt 9] in
+  Cql.wf_type (to_ctype t) = true /\ Cql.wf_val (to_ctype t) v = true /\ Cql.known_class (to_ctype t) v = false /\
+  Cql.ser_value true (to_ctype t) v = Ok [0; 0; 0; 1; 0; 0; 0; 4; 0; 0; 0; 9] /\
+  typed_cell t (Some [0; 0; 0; 1; 0; 0; 0; 4; 0; 0; 0; 9]) = Ok (Cql.CVal (Cql.pad (to_ctype t) v)).
+Proof. repeat split; vm_compute; reflexivity. Qed.
 (* the typed tuple targets of the tie: which target type-checks, where it first fails *)
 Example C08_ex_tuple_target :
   tuple_target [ex_ccol 97] = 1 /\ tuple_target [ex_ccol 97; ex_ccol 98] = 0 /\
@@ -288,7 +312,13 @@ Example C08_ex_tuple_target :
   tuple_cell_ok 2 1 (TNative Ascii) (Some [195; 169]) = false /\ tuple_cell_ok 2 1 (TNative Text) (Some [195; 169]) = true /\
   tuple_cell_ok 4 0 (TNative Boolean) (Some [0; 1]) = false /\
   tuple_cell_ok 5 0 (TList false (TNative Int)) (Some [0; 0; 0; 2; 0; 0; 0; 4; 0; 0; 0; 9; 255; 255; 255; 255]) = true /\
-  tuple_cell_ok 5 0 (TList false (TNative Int)) (Some [0; 0; 0; 1; 0; 0; 0; 3; 0; 0; 9]) = false.
+  tuple_cell_ok 5 0 (TList false (TNative Int)) (Some [0; 0; 0; 1; 0; 0; 0; 3; 0; 0; 9]) = false /\
+  (* a vector column is accepted by Vec<T>::type_check too; elements have no length prefix *)
+  tuple_target [mkColSpec ([107], [116]) [97] (TVector (TNative Int) 3)] = 5 /\
+  tuple_target [mkColSpec ([107], [116]) [97] (TVector (TNative Float) 3)] = 0 /\
+  tuple_cell_ok 5 0 (TVector (TNative Int) 3) (Some [0; 0; 0; 1; 0; 0; 0; 2; 0; 0; 0; 3]) = true /\
+  tuple_cell_ok 5 0 (TVector (TNative Int) 3) (Some [0; 0; 0; 1; 0; 0; 0; 2]) = true /\
+  tuple_cell_ok 5 0 (TVector (TNative Int) 3) (Some [0; 0; 0; 1; 0; 0]) = false.
 Proof. repeat split; vm_compute; reflexivity. Qed.
 
 Print Assumptions C08_roundtrip.
